@@ -99,3 +99,133 @@ class LayoutResolution_contract:
     def canary(sh, a, ret):
         ap = [o for e in ret if e[0] == "replace_op" for o in e[2] if isinstance(o, dart.AccessPatternOp)]
         check("canary: all strides are zero", ap[0].patterns.data[0].data.eval(a[4], [])[0] == 0)
+
+
+# =====================================================================================
+# stage 2: byte access pattern -> streamer stride pattern (ConvertStreamToSnaxStreamPattern, whole method)
+# =====================================================================================
+from xdsl.dialects.builtin import IndexType  # noqa: E402
+from xdsl.ir.affine import AffineConstantExpr, AffineDimExpr, AffineMap  # noqa: E402
+
+import snaxc.transforms.convert_dart_to_snax_stream as d2s  # noqa: E402
+from contracts.specs import same_nest  # noqa: E402
+from pyvc.api import mk_ident_value  # noqa: E402
+from snaxc.accelerators.snax import SNAXStreamer  # noqa: E402
+from snaxc.accelerators.streamers.streamers import HasBroadcast, Streamer, StreamerConfiguration, StreamerType  # noqa: E402
+from snaxc.dialects import snax_stream  # noqa: E402
+from snaxc.ir.dart.access_pattern import Template, TemplatePattern  # noqa: E402
+
+
+class AccV(SNAXStreamer):
+    """view of a registered streamer accelerator: its template and streamers for the op (plumbing: assumed)"""
+
+    def __init__(self, template, streamers):
+        SNAXStreamer.__init__(self, StreamerConfiguration(streamers))
+        self._template = template
+
+    def get_template(self, op):
+        return self._template
+
+    def get_streamers(self, op):
+        return self.streamer_config.data.streamers
+
+
+class CtxV:
+    def __init__(self, acc):
+        self.acc = acc
+
+    def get_acc(self, name):
+        return self.acc
+
+
+def operand_family():
+    """(name, element bytes, template bounds, template rows for the operand, streamer spatial sizes, broadcast, temporal bounds)"""
+    out = []
+    M, N, K = [1, 0, 0], [0, 1, 0], [0, 0, 1]
+    for tb in ([2, 2, 2], [1, 4, 2], [4, 1, 1], [2, 3, 1]):
+        out.append(dict(name="gemmx_A_i8", el=1, tbounds=[8, 8, 8], rows=[M, K], spatial=[8], bcast=False, temporal=tb, total_on=True))
+        out.append(dict(name="gemmx_B_i8", el=1, tbounds=[8, 8, 8], rows=[K, N], spatial=[8], bcast=False, temporal=tb, total_on=True))
+    for tb in ([2, 2, 2], [1, 2, 4], [3, 1, 1]):
+        out.append(dict(name="gemmx_D32_i32", el=4, tbounds=[8, 8, 8], rows=[M, N], spatial=[8, 4], bcast=False, temporal=tb, total_on=False))
+        out.append(dict(name="gemmx_C_i32_bcast", el=4, tbounds=[8, 8, 8], rows=[M, N], spatial=[8, 4], bcast=True, temporal=tb, total_on=False))
+        out.append(dict(name="gemmx_D8_i8", el=1, tbounds=[8, 8, 8], rows=[M, N], spatial=[8], bcast=False, temporal=tb, total_on=True))
+    for tb in ([4], [16], [2, 3]):
+        out.append(dict(name="alu_i64", el=8, tbounds=[4], rows=[[1]], spatial=[4], bcast=False, temporal=tb, total_on=True))
+    for tb in ([2], [4, 2]):
+        out.append(dict(name="xdma_i32", el=4, tbounds=[16], rows=[[1]], spatial=[8], bcast=False, temporal=tb, total_on=True))
+    return out
+
+
+@contract
+class ConvertStreamToSnaxStream_contract:
+    """the (ub, ts, ss) configuration the streamer executes enumerates, in 8-byte words, exactly the byte sequence of
+    the scheduled elements: same_nest(element nest, streamer nest) for ALL byte strides"""
+    target = "snaxc.transforms.convert_dart_to_snax_stream.ConvertStreamToSnaxStreamPattern.match_and_rewrite"
+    shapes = operand_family()
+    quick = lambda sh: sh["temporal"] in ([2, 2, 2], [4], [2], [1, 4, 2], [2, 3])
+    native = False
+    permissive = True
+    may_not_return = True
+    allowed_raises = ("RuntimeError", "NotImplementedError", "StopIteration")
+
+    def args(sh, sym):
+        nt, ns = len(sh["temporal"]), len(sh["tbounds"])
+        n = nt + ns
+        bounds = list(sh["temporal"]) + list(sh["tbounds"])
+        strides = [sym.int(f"s{j}", 0) for j in range(n)]
+        e = AffineConstantExpr(0)
+        for j in range(n):
+            e = e + AffineDimExpr(j) * strides[j]
+        amap = AffineMap(n, 0, (e,))
+        rows = sh["rows"]
+        tmpl = Template([TemplatePattern(sh["tbounds"], AffineTransform(np.array(rows).reshape(len(rows), ns), np.array([0] * len(rows)).reshape(len(rows))))])
+        acc = AccV(tmpl, [Streamer(StreamerType.Reader, ["n"] * 6, sh["spatial"], [HasBroadcast()] if sh["bcast"] else [])])
+        ptr = mk_ident_value(7000, IndexType())
+        op = dart.AccessPatternOp([ptr], [], ArrayAttr([AffineMapAttr(amap)]), Region(Block()), bounds, "acc")
+        relevant = [True] * nt + [any(rows[i][j] != 0 for i in range(len(rows))) for j in range(ns)]
+        return [op, acc, strides, bounds, relevant]
+
+    def requires(sh, a):
+        op, acc, strides, bounds, relevant = a
+        # what set-memory-layout produces: the innermost relevant dimension is contiguous (stride == element size)
+        inner = [j for j in range(len(bounds)) if relevant[j]][-1]
+        ok = strides[inner] == sh["el"]
+        if sh["bcast"]:
+            # a zero spatial stride on a streamer with HasBroadcast switches the HARDWARE broadcast mode on; what the ports
+            # fetch then is not a loop nest over addresses - outside this model, excluded (stated in evidence)
+            ok = ok and all(strides[j] >= 1 for j in range(len(bounds)) if relevant[j])
+        return ok
+
+    def run(sh, a):
+        op, acc = a[0], a[1]
+        rw = PatternRewriter(op)
+        d2s.ConvertStreamToSnaxStreamPattern(CtxV(acc)).match_and_rewrite(op, rw)
+        return rw.log
+
+    def raises(sh, a, exc):
+        if sh["total_on"]:
+            check(f"shipped operand shape: the conversion must not reject it ({exc})", exc not in ("NotImplementedError", "StopIteration"))
+
+    def ensures(sh, a, ret):
+        op, acc, strides, bounds, relevant = a
+        rep = [e for e in ret if e[0] == "replace_op"]
+        check("replaced by one streaming region", len(rep) == 1 and rep[0][1] is op and isinstance(rep[0][2][-1], snax_stream.StreamingRegionOp))
+        p = rep[0][2][-1].stride_patterns.data[0]
+        ub = [x.data for x in p.upper_bounds.data]
+        ts = [x.data for x in p.temporal_strides.data]
+        ss = [x.data for x in p.spatial_strides.data]
+        check("one spatial stride per streamer spatial dimension", len(ss) == len(sh["spatial"]))
+        check("bounds and temporal strides stay paired", len(ub) == len(ts))
+        n = len(bounds)
+        # element nest, innermost first, in bytes: the element itself, then every relevant schedule dimension
+        E = [(1, sh["el"])] + [(strides[j], bounds[j]) for j in reversed(range(n)) if relevant[j]]
+        # what the streamer executes: 8 contiguous bytes per port, the spatial ports, then the temporal loops (innermost first)
+        S = [(1, 8)] + [(ss[k], sh["spatial"][k]) for k in range(len(ss))] + [(ts[k], ub[k]) for k in range(len(ub))]
+        if any(u == 0 for u in ub):
+            check("no empty stream for a non-empty schedule", False)
+        else:
+            check("the streamer touches exactly the bytes of the scheduled elements, in order (same_nest)", same_nest(E, S))
+
+    def canary(sh, a, ret):
+        rep = [e for e in ret if e[0] == "replace_op"]
+        check("canary: no temporal loops are ever needed", len(rep[0][2][-1].stride_patterns.data[0].upper_bounds.data) == 0)
